@@ -75,4 +75,6 @@ let () = register "packref" packref
 let () = register "packparse" packparse
 let () = register "packbig" (fun _ -> "unmodelled")
 let () = register "packparsebig" (fun _ -> "unmodelled")
+(* packhuge: images of 16 MiB and more - implementation + oracle only (the oracle is the layout of Proofs/PackSerialize.v: image) *)
+let () = register "packhuge" (fun _ -> "unmodelled")
 let () = register "sjis" (fun _ -> "unmodelled")
